@@ -8,11 +8,19 @@ Open Scope N_scope.
 
 Inductive outcome := OMesh (m : mesh) | ODeclared | OCrash | OHang.          (* what ply.ReadMesh did *)
 Inductive wres := WFile (f : plyfile) | WDeclared | WCrash.                   (* what MeshWriter.Write did *)
+
+(* large synthetic meshes (see the section at the end of the file): parameters and what the implementation did *)
+Record bigp := { bp_tri : bool; bp_n : N; bp_nf : N; bp_mask : N; bp_seed : N; bp_unspec : bool }.
+Record bigfile := { bf_header : list (list string); bf_len : N; bf_fp : Z * Z;
+                    bf_vtoks : N * N; bf_ftoks : N * N (* min, max tokens per vertex / face line, ASCII *) }.
+Inductive bigw := BFile (f : bigfile) | BWDeclared | BWCrash.
+Inductive bigout := BMesh (tri : bool) (nidx : N) (idxfp : Z * Z) (nattrs : N) (attrfp : Z * Z) | BDeclared | BCrash | BHang.
 Inductive case :=
 | CW (o : wopts) (m : wmesh) (wa wl wb : wres) (oa ol ob : outcome)           (* ascii, little, big *)
 (* the two binary encodings alone: emitted next to a CW case that carries a known-finding key (both known
    findings are ASCII-only), so that every other failure on such a mesh stays visible *)
-| CWbin (o : wopts) (m : wmesh) (wl wb : wres) (ol ob : outcome).
+| CWbin (o : wopts) (m : wmesh) (wl wb : wres) (ol ob : outcome)
+| CBig (p : bigp) (wa wl wb : bigw) (oa ol ob : bigout).
 
 (* ================= model vs implementation ================= *)
 Definition tok_eqb (a b : tok) : bool :=
@@ -55,11 +63,7 @@ Definition corr_one (o : wopts) (m : wmesh) (f : fmt) (w : wres) (out : outcome)
   && (if is_default_table o && wf_mesh m
          && negb (match f with ASCII => match effective_writers o m with [] => negb (Nat.eqb (w_n m) 0) | _ => false end | _ => false end)
       then outcome_matches (expected o m) out else true).
-Definition corr_ok (c : case) : bool :=
-  match c with CW o m wa wl wb oa ol ob =>
-    corr_one o m ASCII wa oa && corr_one o m BinLE wl ol && corr_one o m BinBE wb ob
-  | CWbin o m wl wb ol ob => corr_one o m BinLE wl ol && corr_one o m BinBE wb ob
-  end.
+(* corr_ok: at the end of the file *)
 
 (* ================= the property itself, on the implementation's output ================= *)
 (* which attributes the configuration promises to carry: a property writer names it, or unspecified
@@ -209,6 +213,200 @@ Definition header_okb (m : wmesh) (f : fmt) (w : wres) : bool :=
   | _ => false
   end.
 
+(* ================= large synthetic meshes (sizes past internal block limits; the whole float32 range) =================
+   A case carries only parameters: topology, vertex count n, face count nf, attribute mask, seed, unspecified on/off.
+   The harness and this file derive the same mesh from them ([sval]: finite float32 words over every exponent 0..254,
+   both signs, zero / dense / single-bit / low-bit mantissas, so -0, denormals, 1e-38 .. 3e38 and whole numbers above 2^63
+   all occur; [cword]: colours on exact dyadics; [bidx]: indices).  What the implementation wrote and read back comes
+   as lengths, the header lines, and order-sensitive fingerprints (two polynomial hashes modulo 2^63 on Coq's machine
+   integers) of the body bytes / tokens and of the returned mesh (index list in order; attributes as an order-free
+   sum of per-attribute hashes seeded with dimension and name). *)
+From Coq Require Import Uint63 Ascii.
+Definition int_of_N (n : N) : int := match n with N0 => 0%uint63 | Npos p => of_pos p end.
+Definition fpt := (int * int)%type.
+Definition fp0 : fpt := (0, 0)%uint63.
+Definition fps (h : fpt) (x : int) : fpt :=
+  let '(h1, h2) := h in let v := (x + 1)%uint63 in ((h1 * 1000003 + v)%uint63, (h2 * 998244353 + v)%uint63).
+Definition fp_add (a b : fpt) : fpt := ((fst a + fst b)%uint63, (snd a + snd b)%uint63).
+Definition fp_out (h : fpt) : Z * Z := (to_Z (fst h), to_Z (snd h)).
+Definition fp_eqb (a b : Z * Z) : bool := (fst a =? fst b)%Z && (snd a =? snd b)%Z.
+Definition fp_N (h : fpt) (x : N) : fpt := fps h (int_of_N x).
+(* a 64-bit pattern as two 32-bit halves *)
+Definition fp_f64 (h : fpt) (x : N) : fpt := fp_N (fp_N h (x / 4294967296)) (x mod 4294967296).
+Fixpoint fp_name (h : fpt) (s : string) : fpt :=
+  match s with EmptyString => h | String c r => fp_name (fp_N h (N_of_ascii c)) r end.
+Definition fp_tok (h : fpt) (t : tok) : fpt :=
+  match t with
+  | TI z f => fp_f64 (fp_N (fp_N h 1) (Z.to_N (z + 2147483648))) f
+  | TF f => fp_f64 (fp_N h 2) f
+  | TBad => fp_N h 3
+  end.
+Definition fp_body (b : body) : Z * Z :=
+  match b with
+  | BodyBin bytes => fp_out (fold_left fp_N bytes fp0)
+  | BodyAscii lines => fp_out (fold_left (fun h l => fold_left fp_tok l (fp_N h (N.of_nat (List.length l)))) lines fp0)
+  end.
+Definition fp_attr (a : attr) : fpt :=
+  let '(d, n, rows) := a in
+  fold_left (fun h r => fold_left fp_f64 r h) rows (fp_N (fp_name (fp_N fp0 (N.of_nat d)) n) (N.of_nat (List.length rows))).
+Definition fp_attrs (l : list attr) : Z * Z := fp_out (fold_left (fun s a => fp_add s (fp_attr a)) l fp0).
+Definition fp_idx (l : list Z) : Z * Z := fp_out (fold_left (fun h z => fp_N h (Z.to_N z)) l fp0).
+
+(* the synthetic float32 word, on machine integers (all intermediate values stay far below 2^62) *)
+Definition svali (seed i k : int) : int :=
+  (let v := 13 * i + 7 * k + seed in
+   let e := (v + v / 255) mod 255 in
+   let sel := (v / 3) mod 4 in
+   let mant := if sel =? 0 then 0 else if sel =? 1 then (v * 2654435761) mod 8388608 else if sel =? 2 then 4194304 else v mod 7 + 1 in
+   (((v / 2) mod 2) << 31) + (e << 23) + mant)%uint63.
+Definition N_of_int (x : int) : N := Z.to_N (to_Z x).
+Definition sval (seed i k : N) : N := N_of_int (svali (int_of_N seed) (int_of_N i) (int_of_N k)).
+Definition cseli (seed i k : int) : int := ((13 * i + 7 * k + seed) mod 5)%uint63.
+Definition csel (seed i k : N) : nat := N.to_nat (N_of_int (cseli (int_of_N seed) (int_of_N i) (int_of_N k))).
+Definition cword (seed i k : N) : N := nth (csel seed i k) [0; 1048576000; 1056964608; 1061158912; 1065353216] 0.
+Definition cbyte (seed i k : N) : N := nth (csel seed i k) [0; 64; 128; 191; 255] 0.
+Definition bidxi (n seed c : int) : int := ((5 * c + seed + c / 3) mod n)%uint63.
+Definition bidx (p : bigp) (c : N) : N := N_of_int (bidxi (int_of_N (bp_n p)) (int_of_N (bp_seed p)) (int_of_N c)).
+(* 0, 1, ..., k-1 as binary numbers *)
+Fixpoint nseq (k : nat) (start : N) : list N := match k with O => [] | S k' => start :: nseq k' (N.succ start) end.
+(* attribute universe: (mask bit, dimension, name), in the order Float4/3/2/1Attributes report them *)
+Definition big_universe : list (N * nat * string) :=
+  [(5, 4%nat, "Rotation"); (2, 3%nat, "Color"); (1, 3%nat, "Normal"); (0, 3%nat, "Position");
+   (7, 2%nat, "Foo"); (3, 2%nat, "TexCoord"); (6, 1%nat, "Intensity"); (4, 1%nat, "Opacity")]%string.
+Definition big_has (p : bigp) (bit : N) : bool := N.testbit (bp_mask p) bit.
+Definition big_word (p : bigp) (bit i : N) (j : nat) : N :=
+  if bit =? 2 then cword (bp_seed p) i (N.of_nat j) else sval (bp_seed p) i (10 * bit + N.of_nat j).
+Definition big_verts (p : bigp) : list N := nseq (N.to_nat (bp_n p)) 0.
+Definition big_corners (p : bigp) : list N := map (bidx p) (nseq (3 * N.to_nat (bp_nf p)) 0).
+Definition big_mesh (p : bigp) : wmesh :=
+  {| w_topo := if bp_tri p then TTriangle else TPoint;
+     w_idx := if bp_tri p then map N.to_nat (big_corners p) else seq 0 (N.to_nat (bp_n p));
+     w_n := N.to_nat (bp_n p);
+     w_attrs := flat_map (fun '(bit, d, name) =>
+                  if big_has p bit
+                  then [{| wa_dim := d; wa_name := name;
+                           wa_rows := map (fun i => map (big_word p bit i) (seq 0 d)) (big_verts p) |}]
+                  else []) big_universe |}.
+Definition big_opts (p : bigp) : wopts := {| o_writers := default_writers; o_unspec := bp_unspec p |}.
+
+(* The mesh the property promises, straight from the parameters (no writer model, no lists: sizes up to 10^5
+   vertices are judged in linear time on machine integers).  Float storage returns the value itself: the float64
+   widening of a normal float32 word (sign, exponent + 896, mantissa shifted by 29 bits) is hashed as its two 32-bit
+   halves; zeros likewise; denormals go through [cvF].  Colours return b/255 for the byte b of the dyadic.  User
+   attributes travel only with unspecified properties on, a user vector as scalars name_k; TexCoord of a triangle mesh
+   per corner (unweld) when there is a face, dropped when there is none; TexCoord of a point cloud per vertex with
+   unspecified properties on. *)
+Definition fp_widen (h : fpt) (w : int) : fpt :=
+  (let s := w >> 31 in let e := (w >> 23) land 255 in let m := w land 8388607 in
+   if e =? 0 then
+     if m =? 0 then fps (fps h (s << 31)) 0 else fp_f64 h (cvF (N_of_int w))
+   else fps (fps h ((s << 31) + ((e + 896) << 20) + (m >> 3))) ((m land 7) << 29))%uint63.
+Definition fp_value (seed bit i : int) (h : fpt) (j : nat) : fpt :=
+  let ji := int_of_N (N.of_nat j) in
+  if (bit =? 2)%uint63
+  then fp_f64 h (nth (N.to_nat (nth (N.to_nat (N_of_int (cseli seed i ji))) [0; 64; 128; 191; 255] 0)) div255_tab 0)
+  else fp_widen h (svali seed i (10 * bit + ji)%uint63).
+(* positions 0..k-1, each mapped to a vertex by [at_] *)
+Fixpoint fp_rows (k : nat) (c : int) (at_ : int -> int) (row : int -> fpt -> fpt) (h : fpt) : fpt :=
+  match k with O => h | S k' => fp_rows k' (c + 1)%uint63 at_ row (row (at_ c) h) end.
+(* expected attributes: (dimension, name, universe bit, components) *)
+Definition big_expect_descr (p : bigp) : list (nat * string * N * list nat) :=
+  flat_map (fun '(bit, d, name) =>
+    if negb (big_has p bit) then [] else
+    if bit =? 3 then
+      (if bp_tri p then (if bp_nf p =? 0 then [] else [(2%nat, name, bit, [0; 1]%nat)])
+       else if bp_unspec p then [(2%nat, name, bit, [0; 1]%nat)] else [])
+    else if (bit =? 6) || (bit =? 7) then
+      (if bp_unspec p then
+         match d with
+         | 1%nat => [(1%nat, name, bit, [0%nat])]
+         | _ => map (fun j => (1%nat, suffixed name j, bit, [j])) (seq 0 d)
+         end
+       else [])
+    else [(d, name, bit, seq 0 d)]) big_universe.
+Definition big_unweld (p : bigp) : bool := bp_tri p && big_has p 3 && negb (bp_nf p =? 0).
+Definition big_expect_fp (p : bigp) : N * (Z * Z) :=
+  let seed := int_of_N (bp_seed p) in let n := int_of_N (bp_n p) in
+  let count := if big_unweld p then 3 * bp_nf p else bp_n p in
+  let at_ := if big_unweld p then bidxi n seed else (fun c => c) in
+  let ds := big_expect_descr p in
+  (N.of_nat (List.length ds),
+   fp_out (fold_left (fun s '(d, name, bit, js) =>
+             fp_add s (fp_rows (N.to_nat count) 0%uint63 at_
+                         (fun i h => fold_left (fp_value seed (int_of_N bit) i) js h)
+                         (fp_N (fp_name (fp_N fp0 (N.of_nat d)) name) count))) ds fp0)).
+Definition big_expect_idx_fp (p : bigp) : N * (Z * Z) :=
+  let seed := int_of_N (bp_seed p) in let n := int_of_N (bp_n p) in
+  let count := if bp_tri p then 3 * bp_nf p else bp_n p in
+  let at_ := if bp_tri p && negb (big_unweld p) then bidxi n seed else (fun c => c) in
+  (count, fp_out (fp_rows (N.to_nat count) 0%uint63 at_ (fun i h => fps h i) fp0)).
+
+Definition big_out_eqb (a b : bigout) : bool :=
+  match a, b with
+  | BMesh t n i k f, BMesh t' n' i' k' f' => Bool.eqb t t' && (n =? n') && fp_eqb i i' && (k =? k') && fp_eqb f f'
+  | _, _ => false
+  end.
+Definition big_of_mesh (r : mesh) : bigout :=
+  BMesh (match m_topo r with TTriangle => true | TPoint => false end) (N.of_nat (List.length (m_idx r))) (fp_idx (m_idx r))
+        (N.of_nat (List.length (m_attrs r))) (fp_attrs (m_attrs r)).
+Definition big_oracle (p : bigp) : bigout :=
+  let '(ni, fi) := big_expect_idx_fp p in let '(na, fa) := big_expect_fp p in BMesh (bp_tri p) ni fi na fa.
+Definition body_len (b : body) : N :=
+  match b with BodyBin x => N.of_nat (List.length x) | BodyAscii x => N.of_nat (List.length x) end.
+(* model side, only up to [big_model_cap] vertices (the writer model indexes rows by position: quadratic) *)
+Definition big_model_cap : N := 400.
+Definition big_corr_one (p : bigp) (f : fmt) (w : bigw) (out : bigout) : bool :=
+  if (big_model_cap <? bp_n p) || (big_model_cap <? bp_nf p) then true else
+  let m := big_mesh p in let o := big_opts p in
+  match write o f m, w with
+  | Ok file, BFile bf =>
+      list_eqb (list_eqb seqb) (pf_header file) (bf_header bf) && (body_len (pf_body file) =? bf_len bf)
+      && fp_eqb (fp_body (pf_body file)) (bf_fp bf)
+  | Err EDeclared, BWDeclared | Err ECrash, BWCrash | Err EUnsupported, _ => true
+  | _, _ => false
+  end
+  && (if wf_mesh m then match expected o m with Ok r => big_out_eqb (big_of_mesh r) out | Err _ => false end else true).
+(* header of the written file against the parameters and the body that follows *)
+Definition big_header_okb (p : bigp) (f : fmt) (w : bigw) : bool :=
+  match w with
+  | BFile bf =>
+      match parse_header (bf_header bf) with
+      | Ok h =>
+          fmt_eqb (h_fmt h) f &&
+          match find_last_elem "vertex" (h_elems h) None with
+          | None => false
+          | Some ve =>
+              let fe := find_last_elem "face" (h_elems h) None in
+              let fcount := match fe with Some e => Z.to_N (e_count e) | None => 0 end in
+              let fprops := match fe with Some e => e_props e | None => [] end in
+              Z.eqb (e_count ve) (Z.of_N (bp_n p))
+              && match bp_tri p, fe with
+                 | true, Some e => Z.eqb (e_count e) (Z.of_N (bp_nf p))
+                 | false, None => true
+                 | _, _ => false
+                 end
+              && match f with
+                 | ASCII =>
+                     let np := N.of_nat (List.length (e_props ve)) in let nt := N.of_nat (face_rec_toks fprops) in
+                     (bf_len bf =? bp_n p + fcount)
+                     && ((bp_n p =? 0) || ((fst (bf_vtoks bf) =? np) && (snd (bf_vtoks bf) =? np)))
+                     && ((fcount =? 0) || ((fst (bf_ftoks bf) =? nt) && (snd (bf_ftoks bf) =? nt)))
+                 | _ => bf_len bf =? bp_n p * N.of_nat (record_size (e_props ve)) + fcount * N.of_nat (face_rec_size fprops)
+                 end
+          end
+      | Err _ => false
+      end
+  | _ => false
+  end.
+
+(* ================= the two judgements ================= *)
+Definition corr_ok (c : case) : bool :=
+  match c with CW o m wa wl wb oa ol ob =>
+    corr_one o m ASCII wa oa && corr_one o m BinLE wl ol && corr_one o m BinBE wb ob
+  | CWbin o m wl wb ol ob => corr_one o m BinLE wl ol && corr_one o m BinBE wb ob
+  | CBig p wa wl wb oa ol ob => big_corr_one p ASCII wa oa && big_corr_one p BinLE wl ol && big_corr_one p BinBE wb ob
+  end.
+
 Definition prop_ok (c : case) : bool :=
   match c with CW o m wa wl wb oa ol ob =>
     roundtrip_okb o m wa oa && roundtrip_okb o m wl ol && roundtrip_okb o m wb ob
@@ -217,4 +415,8 @@ Definition prop_ok (c : case) : bool :=
   | CWbin o m wl wb ol ob =>
     roundtrip_okb o m wl ol && roundtrip_okb o m wb ob && outcomes_agree ol ob
     && header_okb m BinLE wl && header_okb m BinBE wb
+  | CBig p wa wl wb oa ol ob =>
+    let e := big_oracle p in
+    big_out_eqb e oa && big_out_eqb e ol && big_out_eqb e ob
+    && big_header_okb p ASCII wa && big_header_okb p BinLE wl && big_header_okb p BinBE wb
   end.
